@@ -266,6 +266,14 @@ def check_arm(chk, f, name, enum, av, arm, sw_bb):
             env, conds = pe.run(path)
             e = ps.norm(env.get(0, ("konst", "no value")))
             pin = pinned_code(conds)
+            # `outcome.map_err(anyhow::Error::from)` / `.map_err(|e| e.into())`: Ok stays Ok, an Err stays an Err built from
+            # the original error (that it still names the code is decided below on the whole expression)
+            # (only for a conversion function: a closure could replace the error by one that no longer names the code)
+            while e[0] == "call" and e[1] == "core::result::Result::<T, E>::map_err" and len(e[2]) == 2 and \
+                    e[2][0][0] == "agg" and str(e[2][0][1]).endswith(("Result::Ok", "Result::Err")) and \
+                    e[2][1][0] == "konst" and any(s_ in str(e[2][1][1]) for s_ in ("core::convert::From::from", "core::convert::Into::into",
+                                                                                    "anyhow::Error::new", "anyhow::Error::from")):
+                e = e[2][0]
             is_ok = e[0] == "agg" and str(e[1]).endswith("Result::Ok")
             is_err = (e[0] == "agg" and str(e[1]).endswith("Result::Err")) or \
                 (e[0] == "call" and e[1].endswith("FromResidual::from_residual"))
